@@ -824,6 +824,13 @@ Proof.
   rewrite rfft_add. ring.
 Qed.
 
+Lemma sum_delta a v : (a < n)%nat -> sum (fun k => if (k =? a)%nat then v else 0) n = v.
+Proof.
+  intros Ha. rewrite (S_single _ n a Ha).
+  - now rewrite Nat.eqb_refl.
+  - intros i _ Hi. destruct (Nat.eqb_spec i a); [contradiction|reflexivity].
+Qed.
+
 (* spectrum of one complex exponential of frequency a *)
 Lemma rfft_exponential c a k : (a < n)%nat -> (k < n)%nat ->
   rfft (fun j => c * w (zn j * zn a)%Z) k = if (k =? a)%nat then natC n * c else 0.
@@ -871,11 +878,7 @@ Proof.
         rewrite w_mirror by lia. ring.
       - ring. }
   rewrite S_add.
-  rewrite (S_single (fun k => if (k =? a)%nat then _ else 0) n a) by
-    (try lia; intros i _ Hi; destruct (Nat.eqb_spec i a); [contradiction|reflexivity]).
-  rewrite (S_single (fun k => if (k =? n - a)%nat then _ else 0) n (n - a)) by
-    (try lia; intros i _ Hi; destruct (Nat.eqb_spec i (n - a)); [contradiction|reflexivity]).
-  rewrite !Nat.eqb_refl, conj_mul. ring.
+  rewrite !sum_delta by lia. rewrite conj_mul. ring.
 Qed.
 
 (* a constant (DC) signal is left unchanged when the DC phase factor is 1 *)
@@ -886,8 +889,7 @@ Proof.
   apply (mul_cancel_l (natC n)); [exact nC_ne0|].
   rewrite fshift_full by exact Hx.
   rewrite (S_ext _ (fun k => if (k =? 0)%nat then natC n * c else 0)).
-  - rewrite (S_single _ n 0%nat) by (try lia; intros i _ Hi; destruct (Nat.eqb_spec i 0); [contradiction|reflexivity]).
-    reflexivity.
+  - rewrite sum_delta by lia. reflexivity.
   - intros k Hk.
     rewrite (rfft_ext _ (fun i => c * w (zn i * zn 0)%Z))
       by (intros i _; cbn [Z.of_nat]; rewrite Z.mul_0_r, w0; ring).
@@ -914,7 +916,7 @@ Lemma transpose_length m X : length (transpose m X) = m.
 Proof. now rewrite transpose_spec, map_length, seq_length. Qed.
 
 Lemma transpose_nth m X c : (c < m)%nat -> nth c (transpose m X) [] = col c X.
-Proof. intros Hc. rewrite transpose_spec. now apply nth_map_seq. Qed.
+Proof. intros Hc. rewrite transpose_spec. apply (nth_map_seq (fun c' => col c' X) m c [] Hc). Qed.
 
 Local Notation fshift2 := (fshift2 C c0 c1 cadd cmul cinv cconj w).
 
@@ -930,8 +932,8 @@ Proof.
   unfold Model.fshift2. destruct (fshift_rows ps (transpose nc X)) as [Y|] eqn:E; [|discriminate].
   intros H. injection H as <-.
   destruct (fshift_rows_spec _ _ _ E) as (Hl & Hps & Hrow). rewrite transpose_length in *.
-  repeat split.
-  - apply transpose_length.
+  split; [|split; [|split]].
+  - reflexivity.
   - intros row Hrow'. rewrite transpose_spec in Hrow'. apply in_map_iff in Hrow'.
     destruct Hrow' as [r [<- _]]. unfold col. now rewrite map_length.
   - exact Hps.
@@ -1010,4 +1012,233 @@ Lemma pub_fshift_compose_defect p q x j : real x -> Nat.even n = true ->
         (w (Z.of_nat j * Z.of_nat (n / 2))%Z))).
 Proof. use fshift_compose_defect. Qed.
 
+Local Notation fshift1 := (fshift1 C c0 c1 cadd cmul cinv cconj n w).
+Local Notation frows := (fshift_rows C c0 c1 cadd cmul cinv cconj n w).
+Local Notation rlist := (real_list C cconj).
+Local Notation nthC := (nthC C c0).
+
+Lemma pub_l_zero p x : (2 <= n)%nat -> length x = n -> rlist x ->
+  length p = (n / 2 + 1)%nat -> (forall k, (k <= n / 2)%nat -> nthC p k = c1) ->
+  fshift1 p x = Some x.
+Proof. use l_fshift_zero. Qed.
+
+Lemma pub_l_int p x m : (2 <= n)%nat -> length x = n -> rlist x ->
+  length p = (n / 2 + 1)%nat ->
+  (forall k, (k <= n / 2)%nat -> nthC p k = w (- (Z.of_nat k * m))%Z) ->
+  fshift1 p x = Some (roll_list C c0 n m x).
+Proof. use l_fshift_int. Qed.
+
+Lemma pub_l_compose p q x y z : rlist x ->
+  fshift1 p x = Some y -> fshift1 q y = Some z ->
+  re (cmul (nthC p 0) (nthC q 0)) = cmul (re (nthC p 0)) (re (nthC q 0)) ->
+  (Nat.even n = true ->
+     rfft (nthC x) (n / 2) = c0 \/
+     re (cmul (nthC p (n / 2)) (nthC q (n / 2))) = cmul (re (nthC p (n / 2))) (re (nthC q (n / 2)))) ->
+  fshift1 (lmul C cmul p q) x = Some z.
+Proof. use l_fshift_compose. Qed.
+
+Lemma pub_shape_real p x y : fshift1 p x = Some y -> length y = n /\ rlist y.
+Proof. use fshift1_shape_real. Qed.
+
+Lemma pub_rows_spec ps X Y : frows ps X = Some Y ->
+  length Y = length X /\ length ps = length X /\
+  forall i, (i < length X)%nat -> fshift1 (nth i ps []) (nth i X []) = Some (nth i Y []).
+Proof. use fshift_rows_spec. Qed.
+
+Lemma pub_rows_total ps X : (2 <= n)%nat -> length ps = length X ->
+  (forall x, In x X -> length x = n) -> (forall p, In p ps -> length p = (n / 2 + 1)%nat) ->
+  exists Y, frows ps X = Some Y.
+Proof. use fshift_rows_total. Qed.
+
+Lemma pub_axis0 nc ps X Z :
+  fshift2 C c0 c1 cadd cmul cinv cconj w true n nc ps X = Some Z ->
+  length Z = n /\ (forall row, In row Z -> length row = nc) /\ length ps = nc /\
+  forall c, (c < nc)%nat -> fshift1 (nth c ps []) (col C c0 c X) = Some (col C c0 c Z).
+Proof. use fshift2_axis0. Qed.
+
+Lemma pub_additive p x y j :
+  fshift p (fun i => cadd (x i) (y i)) j = cadd (fshift p x j) (fshift p y j).
+Proof. use fshift_additive. Qed.
+
+Lemma pub_harmonic p c a j : (0 < a)%nat -> (2 * a < n)%nat ->
+  fshift p (fun i => cadd (cmul c (w (Z.of_nat i * Z.of_nat a)%Z))
+                          (cmul (cconj c) (w (- (Z.of_nat i * Z.of_nat a))%Z))) j
+  = cadd (cmul (cmul c (p a)) (w (Z.of_nat j * Z.of_nat a)%Z))
+         (cmul (cconj (cmul c (p a))) (w (- (Z.of_nat j * Z.of_nat a))%Z)).
+Proof. use fshift_harmonic. Qed.
+
+Lemma pub_constant p c j : cconj c = c -> p 0%nat = c1 -> fshift p (fun _ => c) j = c.
+Proof. use fshift_constant. Qed.
+
+Section PubPhase.
+Variable Sh : Type.
+Variables (sh0 sh1 : Sh) (shadd : Sh -> Sh -> Sh) (shopp : Sh -> Sh).
+Variable phase : Sh -> nat -> C.
+Hypothesis ph0 : forall k, phase sh0 k = c1.
+Hypothesis phadd : forall s t k, phase (shadd s t) k = cmul (phase s k) (phase t k).
+Hypothesis phopp : forall s k, cmul (phase (shopp s) k) (phase s k) = c1.
+Hypothesis ph1 : forall k, (2 * k <= n)%nat -> phase sh1 k = w (- Z.of_nat k)%Z.
+Hypothesis phdc : forall s, phase s 0%nat = c1.
+Local Notation shZ := (shZ Sh sh0 sh1 shadd shopp).
+
+Lemma pub_ph_zero x j : real x -> (j < n)%nat -> fshift (phase sh0) x j = x j.
+Proof. use ph_fshift_zero. Qed.
+
+Lemma pub_ph_int x m j : real x -> fshift (phase (shZ m)) x j = roll_fun C n m x j.
+Proof. use ph_fshift_int. Qed.
+
+Lemma pub_ph_compose s t x j : real x ->
+  (Nat.even n = true ->
+     rfft x (n / 2) = c0 \/ cconj (phase s (n / 2)%nat) = phase s (n / 2)%nat
+                        \/ cconj (phase t (n / 2)%nat) = phase t (n / 2)%nat) ->
+  fshift (phase t) (fshift (phase s) x) j = fshift (phase (shadd s t)) x j.
+Proof. use ph_fshift_compose. Qed.
+
+Lemma pub_ph_compose_int s m x j : real x ->
+  fshift (phase (shZ m)) (fshift (phase s) x) j = fshift (phase (shadd s (shZ m))) x j /\
+  fshift (phase s) (fshift (phase (shZ m)) x) j = fshift (phase (shadd (shZ m) s)) x j.
+Proof. intros Hx. split; [use ph_fshift_compose_int_r | use ph_fshift_compose_int_l]. Qed.
+
+Lemma pub_ph_compose_odd s t x j : real x -> Nat.even n = false ->
+  fshift (phase t) (fshift (phase s) x) j = fshift (phase (shadd s t)) x j.
+Proof. use ph_fshift_compose_odd. Qed.
+
+End PubPhase.
+
 End Pub.
+
+(* ------------------------------------------------------------------------ *)
+(* utils.parabolic_max *)
+Section Parab.
+Variable C : Type.
+Variables (c0 c1 : C) (cadd cmul : C -> C -> C) (copp cinv : C -> C).
+Hypothesis Cf : field_theory c0 c1 cadd cmul (fsub C cadd copp) copp (fdiv C cmul cinv) cinv (@eq C).
+Add Field Cfield3 : Cf.
+Variables (cleb ceqb : C -> C -> bool).
+Hypothesis ceqb_true : forall a b, ceqb a b = true -> a = b.
+Hypothesis two_ne0 : cadd c1 c1 <> c0.
+
+Local Notation "a + b" := (cadd a b).
+Local Notation "a * b" := (cmul a b).
+Local Notation "a - b" := (fsub C cadd copp a b).
+Local Notation "- a" := (copp a).
+Local Notation "0" := c0.
+Local Notation "1" := c1.
+Local Notation ipeak := (parab_ipeak C c0 c1 cadd cmul copp cinv ceqb).
+Local Notation maxi := (parab_maxi C c0 c1 cadd cmul copp cinv ceqb).
+Local Notation pmax := (parabolic_max C c0 c1 cadd cmul copp cinv cleb ceqb).
+Local Notation natC := (natC C c0 c1 cadd).
+
+(* three samples y(-1), y(0), y(1) of  y(t) = al t^2 + be t + ga,  al <> 0:
+   the interpolated offset v is the stationary point (2 al v + be = 0) and the
+   interpolated maximum is y(v) *)
+Lemma parab_vertex al be ga : al <> 0 ->
+  let v := ipeak (al - be + ga) ga (al + be + ga) in
+  v = - be * cinv ((1 + 1) * al) /\
+  (1 + 1) * al * v + be = 0 /\
+  maxi (al - be + ga) ga (al + be + ga) = al * v * v + be * v + ga.
+Proof using Cf ceqb_true two_ne0.
+  intros Hal.
+  assert (Hp0 : parab_p0 C c1 cadd cmul copp cinv (al - be + ga) ga (al + be + ga) = al).
+  { unfold parab_p0, half, csub. field. exact two_ne0. }
+  assert (Hp1 : parab_p1 C c1 cadd cmul copp cinv (al - be + ga) (al + be + ga) = be).
+  { unfold parab_p1, half, csub. field. exact two_ne0. }
+  assert (Hv : ipeak (al - be + ga) ga (al + be + ga) = - be * cinv ((1 + 1) * al)).
+  { unfold parab_ipeak. rewrite Hp0, Hp1.
+    destruct (ceqb al 0) eqn:E; [apply ceqb_true in E; contradiction|].
+    unfold half. field. split; assumption. }
+  cbv zeta. split; [exact Hv|]. split.
+  - rewrite Hv. field. split; assumption.
+  - unfold parab_maxi. rewrite Hp0, Hp1, Hv. field. split; assumption.
+Qed.
+
+Lemma pmax_edge x i : argmax C cleb x = Some i -> i = 0%nat \/ i = (length x - 1)%nat ->
+  pmax x = Some (true, natC i, nth i x 0).
+Proof using.
+  intros Ha Hi. unfold parabolic_max. rewrite Ha.
+  destruct Hi as [-> | ->].
+  - reflexivity.
+  - rewrite Nat.eqb_refl, orb_true_r. reflexivity.
+Qed.
+
+Lemma pmax_interior x i : argmax C cleb x = Some i -> (0 < i)%nat -> (i < length x - 1)%nat ->
+  pmax x = Some (false, ipeak (nth (i - 1) x 0) (nth i x 0) (nth (i + 1) x 0) + natC i,
+                        maxi (nth (i - 1) x 0) (nth i x 0) (nth (i + 1) x 0)).
+Proof using.
+  intros Ha H0 H1. unfold parabolic_max. rewrite Ha.
+  destruct (Nat.eqb_spec i 0); [lia|]. destruct (Nat.eqb_spec i (length x - 1)); [lia|].
+  reflexivity.
+Qed.
+
+(* np.argmax: the first index carrying the maximum (cleb a total preorder) *)
+Hypothesis cle_refl : forall a, cleb a a = true.
+Hypothesis cle_trans : forall a b c, cleb a b = true -> cleb b c = true -> cleb a c = true.
+Hypothesis cle_total : forall a b, cleb a b = false -> cleb b a = true.
+
+Definition is_first_max (l : list C) (i : nat) : Prop :=
+  (i < length l)%nat /\
+  (forall j, (j < length l)%nat -> cleb (nth j l 0) (nth i l 0) = true) /\
+  (forall j, (j < i)%nat -> cleb (nth i l 0) (nth j l 0) = false).
+
+Lemma argmax_from_spec l : forall pre bi,
+  is_first_max pre bi ->
+  is_first_max (pre ++ l) (argmax_from C cleb l (length pre) bi (nth bi pre 0)).
+Proof using cle_refl cle_trans cle_total.
+  induction l as [|v t IH]; intros pre bi Hm.
+  - rewrite app_nil_r. exact Hm.
+  - destruct Hm as (Hb & Hall & Hfirst). cbn [argmax_from].
+    replace (pre ++ v :: t) with ((pre ++ [v]) ++ t) by (now rewrite <- app_assoc).
+    destruct (cleb v (nth bi pre 0)) eqn:E.
+    + specialize (IH (pre ++ [v]) bi).
+      rewrite app_length, Nat.add_1_r, app_nth1 in IH by exact Hb. apply IH.
+      split; [rewrite app_length; lia|]. split.
+      * intros j Hj. rewrite app_length in Hj. cbn [length] in Hj.
+        rewrite (app_nth1 pre [v] 0 Hb).
+        destruct (lt_dec j (length pre)).
+        -- rewrite app_nth1 by lia. now apply Hall.
+        -- rewrite app_nth2 by lia. replace (j - length pre)%nat with 0%nat by lia. exact E.
+      * intros j Hj. rewrite !app_nth1 by lia. now apply Hfirst.
+    + specialize (IH (pre ++ [v]) (length pre)).
+      rewrite app_length, Nat.add_1_r, app_nth2, Nat.sub_diag in IH by lia. cbn [nth] in IH.
+      apply IH.
+      split; [rewrite app_length; cbn [length]; lia|].
+      rewrite (app_nth2 pre [v] 0) by lia. rewrite Nat.sub_diag. cbn [nth]. split.
+      * intros j Hj. rewrite app_length in Hj. cbn [length] in Hj.
+        destruct (lt_dec j (length pre)).
+        -- rewrite app_nth1 by lia. apply (cle_trans _ (nth bi pre 0)); [now apply Hall|now apply cle_total].
+        -- rewrite app_nth2 by lia. replace (j - length pre)%nat with 0%nat by lia. apply cle_refl.
+      * intros j Hj. rewrite app_nth1 by lia.
+        destruct (cleb v (nth j pre 0)) eqn:E2; [|reflexivity].
+        rewrite (cle_trans v (nth j pre 0) (nth bi pre 0) E2 (Hall j Hj)) in E. discriminate.
+Qed.
+
+Lemma argmax_spec x i : argmax C cleb x = Some i -> is_first_max x i.
+Proof using cle_refl cle_trans cle_total.
+  destruct x as [|v t]; [discriminate|]. cbn [argmax]. intros H. injection H as <-.
+  apply (argmax_from_spec t [v] 0%nat).
+  split; [cbn; lia|]. split.
+  - intros [|j] Hj; cbn in Hj; [apply cle_refl|lia].
+  - intros j Hj. lia.
+Qed.
+
+Lemma pmax_rule x :
+  (x = [] -> pmax x = None) /\
+  (x <> [] -> exists i, argmax C cleb x = Some i /\ is_first_max x i /\
+     ((i = 0%nat \/ i = (length x - 1)%nat) -> pmax x = Some (true, natC i, nth i x 0)) /\
+     ((0 < i)%nat -> (i < length x - 1)%nat ->
+        pmax x = Some (false, ipeak (nth (i - 1) x 0) (nth i x 0) (nth (i + 1) x 0) + natC i,
+                              maxi (nth (i - 1) x 0) (nth i x 0) (nth (i + 1) x 0)))).
+Proof using cle_refl cle_trans cle_total.
+  split.
+  - intros ->. reflexivity.
+  - intros Hx. destruct (argmax C cleb x) as [i|] eqn:E.
+    + exists i. split; [reflexivity|]. split; [now apply argmax_spec|]. split.
+      * now apply pmax_edge.
+      * now apply pmax_interior.
+    + destruct x; [contradiction|discriminate].
+Qed.
+
+Lemma argmax_none x : argmax C cleb x = None <-> x = [].
+Proof using. destruct x; cbn [argmax]; split; intros H; congruence. Qed.
+
+End Parab.
